@@ -2,22 +2,108 @@
 from __future__ import annotations
 
 import ast
+import dataclasses
 import re
 from typing import Any
 
 from jinja2 import nodes
 
 from .. import tplq
-from ..astutil import Locals, call_name, norm, short, where
+from ..astutil import Locals, call_name, calls_in, norm, region, short, stmt_of, truth_table, where
+from ..cfg import CFG
 from ..core import PKG, Report
 from ..jinja_interp import expr_text
-from .c06 import caught, handlers_around
+from .c06 import MAY_RAISE, caught, handlers_around
 
-LEVEL = ("structural clauses: one status test per parsed response, each branch returns, the unexpected-status tail (raise or "
-         "None) is unconditional; the media-type -> source table extracted from _source_by_content_type equals the table in the "
-         "property statement and each source pairs an httpx accessor with its type; construct-or-cast; a failing type check of a "
-         "union member aborts decoding only when nothing can follow it (truth table); _build_response forwards status, content, "
-         "headers, parsed; blocking/asyncio parity; status parsing contained; reference resolution converges (shared with C20).")
+LEVEL = ("structural clauses: one status test per parsed response, a return is emitted in every status branch under every assignment "
+         "of its guards and `return None` only where the plain variants are not generated (truth tables), the unexpected-status tail "
+         "(raise or None) is unconditional and the dedicated error's constructor applies no conversion to the body that can raise; the "
+         "media-type -> source table read off the tests on the result of get_content_type equals the table in the property statement and "
+         "each source pairs an httpx accessor with its type; every path to property_from_data passes the no-content and no-schema "
+         "tests (CFG dominance, guards evaluated); construct-or-cast; a failing type check of a union member aborts decoding only when "
+         "nothing can follow it (truth table, flag found by role); _build_response forwards status, content, headers, parsed; "
+         "blocking/asyncio parity; status parsing contained; reference resolution converges (shared with C20).")
+
+
+# ---- helpers -----------------------------------------------------------------------------------------------------------------
+
+def _k3(e: ast.expr, known: dict[str, bool]) -> bool | None:
+    """Kleene evaluation of a Python test under partial knowledge (atom text -> truth value); None = not determined"""
+    if isinstance(e, ast.BoolOp):
+        vals = [_k3(v, known) for v in e.values]
+        if isinstance(e.op, ast.And):
+            return False if any(v is False for v in vals) else (True if all(v is True for v in vals) else None)
+        return True if any(v is True for v in vals) else (False if all(v is False for v in vals) else None)
+    if isinstance(e, ast.UnaryOp) and isinstance(e.op, ast.Not):
+        v = _k3(e.operand, known)
+        return None if v is None else not v
+    return known.get(norm(e))
+
+
+def _absent(names: set[str], is_none: bool) -> dict[str, bool]:
+    """what the tests on a falsy value evaluate to: the value is None (is_none) or an empty container"""
+    out: dict[str, bool] = {}
+    for x in names:
+        out[x] = False
+        out[f"{x} is None"] = is_none
+        out[f"{x} is not None"] = not is_none
+    return out
+
+
+def _calls_empty_response(stmts: list[ast.stmt]) -> bool:
+    return any(isinstance(r, ast.Return) and any(call_name(c).rsplit(".", 1)[-1] == "empty_response" for c in calls_in(r)) for r in stmts)
+
+
+def _empty_guard(fn: ast.AST, cfg: CFG, site: ast.stmt, scenarios: list[dict[str, bool]]) -> ast.If | None:
+    """an `if` that every path to `site` passes and whose test, in each scenario, decides for the branch returning empty_response(...)
+    (whichever branch that is, whatever else the test mentions)"""
+    for i in ast.walk(fn):
+        if not isinstance(i, ast.If):
+            continue
+        ok = True
+        for known in scenarios:
+            v = _k3(i.test, known)
+            if v is None or not _calls_empty_response(i.body if v else i.orelse):
+                ok = False
+                break
+        if ok and i is not site and cfg.is_dominated_by(site, lambda n, i=i: n is i):
+            return i
+    return None
+
+
+def _tpl_stmts(body: list[nodes.Node], types: tuple, guards: tuple = (), gnodes: tuple = (), loops: tuple = ()):
+    """statements of the given node types with the conditions / loops they sit under (tplq.frags yields output only)"""
+    for n in body:
+        if isinstance(n, types):
+            yield tplq.Frag(type(n).__name__, "", n.lineno, guards, gnodes, loops, n)
+        if isinstance(n, nodes.If):
+            t = expr_text(n.test)
+            yield from _tpl_stmts(n.body, types, guards + ((t, True),), gnodes + (n.test,), loops)
+            neg = guards + ((t, False),)
+            gn = gnodes + (n.test,)
+            for el in n.elif_:
+                t2 = expr_text(el.test)
+                yield from _tpl_stmts(el.body, types, neg + ((t2, True),), gn + (el.test,), loops)
+                neg = neg + ((t2, False),)
+                gn = gn + (el.test,)
+            yield from _tpl_stmts(n.else_, types, neg, gn, loops)
+        elif isinstance(n, nodes.For):
+            yield from _tpl_stmts(n.body, types, guards, gnodes, loops + (expr_text(n.iter),))
+            yield from _tpl_stmts(n.else_, types, guards, gnodes, loops)
+        elif isinstance(n, (nodes.With, nodes.Scope, nodes.CallBlock, nodes.FilterBlock)):
+            yield from _tpl_stmts(getattr(n, "body", []), types, guards, gnodes, loops)
+
+
+def _python_of(frs: list) -> ast.Module | None:
+    """the Python module a template consists of, every output expression replaced by a name"""
+    try:
+        return ast.parse("".join(f.text if f.kind == "data" else "__expr__" for f in frs))
+    except SyntaxError:
+        return None
+
+
+# error handlers of bytes.decode that never raise
+LENIENT_DECODE = {"ignore", "replace", "backslashreplace", "surrogateescape"}
 
 
 def run(rep: Report, ctx: Any) -> str:
@@ -27,15 +113,20 @@ def run(rep: Report, ctx: Any) -> str:
     et = jx.templates.get("endpoint_module.py.jinja")
     rep.require(et, "endpoint_module.py.jinja")
     rep.rule("R04.1", "status dispatch is total over parsed responses: one `if response.status_code == ...` per element of "
-                      "endpoint.responses, each branch returns; the tail (raise UnexpectedStatus if client.raise_on_unexpected_status "
-                      "else return None) is emitted unconditionally")
-    rep.rule("R04.2", "media type -> source: text/* -> response.text:str, application/json and +json -> response.json(), "
-                      "application/octet-stream -> response.content:bytes, no content / no schema -> None")
+                      "endpoint.responses; under every assignment of the guards a status branch emits a return, and whenever the plain "
+                      "variants (`def sync(`) are generated it is the decoded value, never None; the tail (raise UnexpectedStatus if "
+                      "client.raise_on_unexpected_status else return None) is emitted unconditionally")
+    rep.rule("R04.2", "media type -> source, decided on the result of get_content_type (overrides applied): text/* -> response.text:str, "
+                      "application/json and +json -> response.json(), application/octet-stream -> response.content:bytes; no content / no "
+                      "schema -> None: every path to property_from_data passes a test sending missing/empty content, and one sending a "
+                      "None schema, to `return empty_response(...)`")
     rep.rule("R04.3", "construct-or-cast: the kind's construct when it exists, else direct assignment when the types agree, else cast")
     rep.rule("R04.4", "_build_response forwards status_code, content, headers, parsed; sync = sync_detailed(...).parsed")
     rep.rule("R04.5", "status parsing is contained: HTTPStatus(int(code)) sits in a try catching ValueError whose handler records a diagnostic")
     rep.rule("R04.6", "a union member's failing type check raises outside try/except only if it is the last member and no unmodified "
                       "member can still accept the value")
+    rep.rule("R04.8", "raising the dedicated error cannot fail itself: every conversion UnexpectedStatus applies to the raw body of an "
+                      "undocumented response is total (bytes.decode with a non-raising error handler) or enclosed by a try catching it")
     rep.rule("R04.7", "resolving a $ref'd component response rebinds only `data`: the threaded state and the naming inputs are the same as "
                       "for an inline response (shared with C20)")
 
@@ -47,24 +138,84 @@ def run(rep: Report, ctx: Any) -> str:
               "the status test is not emitted once per parsed response", where=f"{PKG}/templates/{et.name}", lhs=[(f.loops, f.guards) for f in st],
               rhs="inside `for response in endpoint.responses`, unguarded")
     rets = [f for f in top if f.kind == "data" and f.loops == ("endpoint.responses",) and re.search(r"^\s*return\b", f.text, re.M)]
-    arms = {tuple(p for _, p in f.guards if True) for f in rets}
-    # the "this operation has a typed result" flag, however it is named or inlined: the guard built from endpoint.responses|length
-    # and the response type
-    def typed(g: str) -> bool:
-        return "endpoint.responses|length" in g and "response_type()" in g
+    # The plain variants (`def sync(`) exist exactly when the operation has a typed result; that condition - however it is spelled,
+    # named or inlined - is what may decide between "return the decoded value" and "return None" in a status branch.
+    plain = next((f for f in top if f.kind == "data" and not f.loops and re.search(r"^def sync\(", f.text, re.M)), None)
+    # a top-level `set` variable with a single definition is a name for its definition: guards are compared with it unfolded, so naming
+    # the condition in one place and writing it out in another is the same decision
+    defs: dict[str, list[nodes.Node]] = {}
+    for x in _tpl_stmts(et.tree.body, (nodes.Assign,)):
+        if isinstance(x.node.target, nodes.Name):
+            defs.setdefault(x.node.target.name, []).append(x.node.node)
 
-    pr = [f for f in rets if any(typed(g) and p for g, p in f.guards)]
-    npr = [f for f in rets if any(typed(g) and not p for g, p in f.guards)]
-    rep.check(bool(pr) and bool(npr), "R04.1", "endpoint_module.py.jinja::every-branch-returns", "a status branch can fall through without returning",
-              where=f"{PKG}/templates/{et.name}", lhs=[len(pr), len(npr)], rhs="return on both arms of parsed_responses")
+    def unfold(n: nodes.Node, depth: int = 4) -> nodes.Node:
+        if isinstance(n, nodes.Name) and len(defs.get(n.name, ())) == 1 and depth:
+            return unfold(defs[n.name][0], depth - 1)
+        if isinstance(n, (nodes.And, nodes.Or)):
+            return type(n)(unfold(n.left, depth), unfold(n.right, depth))
+        if isinstance(n, nodes.Not):
+            return nodes.Not(unfold(n.node, depth))
+        return n
+
+    def unfolded(f: tplq.Frag) -> tplq.Frag:
+        return dataclasses.replace(f, guard_nodes=tuple(unfold(g) for g in f.guard_nodes))
+
+    rets = [unfolded(f) for f in rets]
+    none_rets = [f for f in rets if re.search(r"^\s*return None\s*$", f.text, re.M)]
+    none_ids = {id(f) for f in none_rets}
+    val_rets = [f for f in rets if id(f) not in none_ids]
+    plain = unfolded(plain) if plain is not None else None
+    names: list[str] = []
+    for f in rets + ([plain] if plain is not None else []):
+        names += [a for a in tplq.guard_atoms(f) if a not in names]
+    rep.require(len(names) <= 12, "guards of the status branches' returns are small enough for a truth table")
+    silent_env = None      # an assignment of the guard atoms under which a status branch emits no return at all
+    lost_env = None        # ... under which the operation has a typed result, yet a status branch returns None / no decoded value
+    for env in tplq.assignments(names):
+        emitted = [f for f in rets if tplq.guard_holds(f, env)]
+        if not emitted and silent_env is None:
+            silent_env = env
+        if plain is not None and tplq.guard_holds(plain, env) and lost_env is None and \
+                (any(id(f) in none_ids for f in emitted) or all(id(f) in none_ids for f in emitted)):
+            lost_env = env
+    rep.check(bool(val_rets) and silent_env is None, "R04.1", "endpoint_module.py.jinja::every-branch-returns",
+              "a status branch can fall through without returning", where=f"{PKG}/templates/{et.name}", lhs=[len(val_rets), len(none_rets), silent_env],
+              rhs="a return is emitted in every status branch under every assignment of its guards")
+    rep.check(plain is not None and lost_env is None, "R04.1", "endpoint_module.py.jinja::typed-operation-returns-decoded-value",
+              f"an operation with a typed result (the plain `sync` variant is generated) has a status branch that returns None instead of the "
+              f"decoded value (e.g. when {lost_env}): a documented response is lost", where=f"{PKG}/templates/{et.name}",
+              lhs=[g for f in none_rets for g, _ in f.guards], rhs="`return None` in a status branch only when the plain variants are not generated")
     tail = [f for f in top if f.kind == "data" and "raise errors.UnexpectedStatus(response.status_code, response.content)" in f.text]
     rep.check(len(tail) == 1 and not tail[0].guards and not tail[0].loops and "if client.raise_on_unexpected_status:" in tail[0].text
               and re.search(r"else:\s*\n\s*return None", tail[0].text) is not None, "R04.1", "endpoint_module.py.jinja::unexpected-status-tail",
               "the unexpected-status tail is conditional on the document (or no longer raises / returns None): an undocumented status would not "
               "raise for some endpoints", where=f"{PKG}/templates/{et.name}", lhs=[f.guards for f in tail], rhs="emitted unconditionally")
     es = jx.templates.get("errors.py.jinja")
-    rep.check(es is not None and "class UnexpectedStatus(Exception)" in es.src, "R04.1", "errors.py.jinja::UnexpectedStatus", "the dedicated error class is gone",
-              where=f"{PKG}/templates/errors.py.jinja")
+    emod = _python_of(list(tplq.frags(es.tree.body))) if es is not None else None
+    ecls = next((n for n in ast.walk(emod) if isinstance(n, ast.ClassDef) and n.name == "UnexpectedStatus"), None) if emod is not None else None
+    rep.check(ecls is not None and any(norm(b).rsplit(".", 1)[-1].endswith(("Exception", "Error")) for b in ecls.bases), "R04.1",
+              "errors.py.jinja::UnexpectedStatus", "the dedicated error class is gone", where=f"{PKG}/templates/errors.py.jinja")
+    # ---- R04.8: raising the dedicated error must not fail itself ---------------------------------------------------------------
+    # `raise errors.UnexpectedStatus(status, body)` runs the class's constructor on the raw body of an arbitrary (undocumented) response:
+    # every conversion in the class that can raise on some bytes (may-raise table of C06; bytes.decode unless its error handler is one
+    # that never raises) has to be contained, otherwise the caller gets that conversion's exception instead of the dedicated error.
+    n_conv = 0
+    if ecls is not None:
+        for c in calls_in(ecls):
+            last = call_name(c).rsplit(".", 1)[-1]
+            if last not in MAY_RAISE:
+                continue
+            n_conv += 1
+            total = False
+            if last == "decode" and isinstance(c.func, ast.Attribute):
+                h = next((k.value for k in c.keywords if k.arg == "errors"), c.args[1] if len(c.args) > 1 else None)
+                total = isinstance(h, ast.Constant) and h.value in LENIENT_DECODE
+            ok = total or all(caught(x, handlers_around(ecls, c)) for x in MAY_RAISE[last])
+            rep.check(ok, "R04.8", f"errors.py.jinja::UnexpectedStatus::{last}-cannot-raise",
+                      f"constructing UnexpectedStatus evaluates `{norm(c)}`, which raises {'/'.join(MAY_RAISE[last])} on some response bodies: "
+                      "with raise_on_unexpected_status the caller gets that exception instead of the dedicated error",
+                      where=f"{PKG}/templates/errors.py.jinja:{c.lineno}", lhs=norm(c), rhs="total conversion (non-raising error handler) or enclosing try")
+    rep.indexed["unexpected_status_conversions"] = n_conv  # no floor: a constructor without conversions satisfies the rule
 
     # ---- R04.2 --------------------------------------------------------------------------------------------------------
     rmod = ix.modules.get(f"{PKG}.parser.responses")
@@ -80,40 +231,81 @@ def run(rep: Report, ctx: Any) -> str:
         rep.check(got.get("attribute") == attr and got.get("return_type") == rt, "R04.2", f"responses::{nm}",
                   f"{nm} pairs {got.get('attribute')} with {got.get('return_type')}", where=f"{rmod.rel}", lhs=got, rhs={"attribute": attr, "return_type": rt})
     sb = ix.func("responses._source_by_content_type")
+    # The table is read off the tests applied to the *result of get_content_type* (the parsed media type with content_type_overrides
+    # applied), whatever that local is called; a test applied to anything else (the raw key) is listed apart and makes the table differ.
+    sl = Locals(sb.node)
+    parsed = set(sl.bound_from(lambda v: "get_content_type(" in v, "assign"))
+
+    def tag(e: ast.AST) -> str:
+        return "" if isinstance(e, ast.Name) and e.id in parsed else "unoverridden:"
+
+    def outcome(stmts: list[ast.stmt]) -> str | None:
+        r = next((x for x in stmts if isinstance(x, (ast.Return, ast.Assign)) and x.value is not None), None)
+        return norm(r.value) if r is not None else None
+
     assoc: dict[str, str] = {}
     for n in ast.walk(sb.node):
-        if isinstance(n, ast.If) and isinstance(n.test, ast.Call) and isinstance(n.test.func, ast.Attribute) and n.test.func.attr == "startswith":
-            r = next((s for s in n.body if isinstance(s, ast.Return)), None)
-            if r is not None and n.test.args and isinstance(n.test.args[0], ast.Constant):
-                assoc[f"prefix:{n.test.args[0].value}"] = norm(r.value)
+        if isinstance(n, ast.If):
+            for c in calls_in(n.test):
+                if isinstance(c.func, ast.Attribute) and c.func.attr in ("startswith", "endswith") and c.args and isinstance(c.args[0], ast.Constant):
+                    # the branch taken when the affix test holds: the one some assignment of the test's atoms reaches only with it true
+                    atom = norm(c)
+                    tt = list(truth_table(n.test))
+                    with_it = {res for env, res in tt if env.get(atom)}
+                    without = {res for env, res in tt if not env.get(atom)}
+                    branch = n.body if True in with_it and True not in without else n.orelse if False in with_it and False not in without else None
+                    v = outcome(branch) if branch else None
+                    if v is not None:
+                        assoc[f"{tag(c.func.value)}{'prefix' if c.func.attr == 'startswith' else 'suffix'}:{c.args[0].value}"] = v
         if isinstance(n, ast.Dict):
+            holders = {nm for nm in sl.defs if any(v is n for v in sl.values_of(nm))}
+            keys = [c.args[0] for c in calls_in(sb.node) if isinstance(c.func, ast.Attribute) and c.func.attr == "get" and c.args
+                    and (c.func.value is n or isinstance(c.func.value, ast.Name) and c.func.value.id in holders)]
+            keys += [x.slice for x in ast.walk(sb.node) if isinstance(x, ast.Subscript)
+                     and (x.value is n or isinstance(x.value, ast.Name) and x.value.id in holders)]
+            t = "" if keys and all(tag(k) == "" for k in keys) else "unoverridden:"
             for k, v in zip(n.keys, n.values):
                 if isinstance(k, ast.Constant):
-                    assoc[f"exact:{k.value}"] = norm(v)
-        if isinstance(n, ast.If) and "endswith('+json')" in norm(n.test):
-            a = next((s for s in n.body if isinstance(s, ast.Assign)), None)
-            if a is not None:
-                assoc["suffix:+json"] = norm(a.value)
+                    assoc[f"{t}exact:{k.value}"] = norm(v)
     want = {"prefix:text/": "TEXT_SOURCE", "exact:application/json": "JSON_SOURCE", "exact:application/octet-stream": "BYTES_SOURCE",
             "suffix:+json": "JSON_SOURCE"}
     rep.check(assoc == want, "R04.2", "_source_by_content_type::table", f"media type table is {assoc}", where(sb, sb.node), lhs=assoc, rhs=want)
     er = ix.func("responses.empty_response")
     rep.check("source=NONE_SOURCE" in norm(er.node), "R04.2", "empty_response::none-source", "an empty response is not decoded to None", where(er, er.node))
     rfd = ix.func("responses.response_from_data")
-    rl = Locals(rfd.node)
-    content_l = set(rl.bound_from(lambda v: v == "data.content", "assign")) | {"data.content"}
-    schema_l = set(rl.bound_from(lambda v: v.endswith(".media_type_schema"), "assign"))
-
-    def _returns_empty(i: ast.If) -> bool:
-        return any(isinstance(r, ast.Return) and any(isinstance(c, ast.Call) and call_name(c) == "empty_response" for c in ast.walk(r)) for r in i.body)
-
-    ifs = [n for n in ast.walk(rfd.node) if isinstance(n, ast.If) and _returns_empty(n)]
-    no_content = [i for i in ifs if isinstance(i.test, ast.UnaryOp) and isinstance(i.test.op, ast.Not) and norm(i.test.operand) in content_l]
-    no_schema = [i for i in ifs if isinstance(i.test, ast.Compare) and isinstance(i.test.ops[0], ast.Is) and norm(i.test.comparators[0]) == "None"
-                 and norm(i.test.left) in schema_l]
-    rep.check(bool(no_content) and bool(no_schema), "R04.2", "response_from_data::no-content-and-no-schema",
-              "no content / no schema are not both mapped to the empty response", where(rfd, rfd.node),
-              lhs=[norm(i.test) for i in ifs], rhs="`not <data.content>` and `<media_type_schema> is None` both return empty_response(...)")
+    # no content / no schema: the schema that gets decoded is whatever is handed to property_from_data(data=...).  Every path to that call
+    # must pass (a) a test that sends "the response's content is missing / empty" and (b) a test that sends "that schema is None" to a
+    # branch returning empty_response(...).  Guards are evaluated, not compared: early return or nested if, either polarity.
+    site_f = None
+    for g in region(ix, rfd):
+        if any(call_name(c).rsplit(".", 1)[-1] == "property_from_data" for c in calls_in(g.node)):
+            site_f = g
+            break
+    rep.require(site_f, "property_from_data(...) call in response_from_data or its helpers")
+    gl = Locals(site_f.node)
+    g_cfg = CFG(site_f.node)
+    content_l = set(gl.bound_from(lambda v: v.endswith(".content"), "assign"))
+    content_l |= {norm(x) for x in ast.walk(site_f.node) if isinstance(x, ast.Attribute) and x.attr == "content"}
+    for c in [c for c in calls_in(site_f.node) if call_name(c).rsplit(".", 1)[-1] == "property_from_data"]:
+        site = stmt_of(site_f.node, c)
+        schema_e = next((k.value for k in c.keywords if k.arg == "data"), None)
+        rep.require(site is not None and schema_e is not None, "data= argument of property_from_data in the response parser")
+        no_schema = _empty_guard(site_f.node, g_cfg, site, [_absent({norm(schema_e)}, True)])
+        no_content = _empty_guard(site_f.node, g_cfg, site, [_absent(content_l, True), _absent(content_l, False)])
+        if no_content is None and site_f is not rfd:
+            # the decoding was moved into a helper: the content test may have stayed with the caller, in front of the helper's call
+            r_cfg = CFG(rfd.node)
+            rl = Locals(rfd.node)
+            r_content = set(rl.bound_from(lambda v: v.endswith(".content"), "assign")) | \
+                {norm(x) for x in ast.walk(rfd.node) if isinstance(x, ast.Attribute) and x.attr == "content"}
+            for c2 in [c2 for c2 in calls_in(rfd.node) if call_name(c2).rsplit(".", 1)[-1] == site_f.name]:
+                st2 = stmt_of(rfd.node, c2)
+                no_content = no_content or (_empty_guard(rfd.node, r_cfg, st2, [_absent(r_content, True), _absent(r_content, False)]) if st2 is not None else None)
+        rep.check(no_content is not None and no_schema is not None, "R04.2", "response_from_data::no-content-and-no-schema",
+                  "no content / no schema are not both mapped to the empty response", where(site_f, site),
+                  lhs=[norm(i.test) if i is not None else None for i in (no_content, no_schema)],
+                  rhs=f"every path to property_from_data(data={norm(schema_e)}) passes `<.content> is missing/empty` and `{norm(schema_e)} is None` tests "
+                      "whose positive outcome returns empty_response(...)")
 
     # ---- R04.3 ----------------------------------------------------------------------------------------------------------
     R = "endpoint.responses[*]"
@@ -129,8 +321,7 @@ def run(rep: Report, ctx: Any) -> str:
     br = next((f for f in top if f.kind == "data" and "def _build_response(" in f.text), None)
     rep.require(br, "_build_response")
     alltxt = "".join(f.text if f.kind == "data" else "X" for f in top)
-    region = alltxt[alltxt.index("def _build_response("):alltxt.index("def sync_detailed(")]
-    br.text = region
+    br.text = alltxt[alltxt.index("def _build_response("):alltxt.index("def sync_detailed(")]
     for kw in ("status_code=HTTPStatus(response.status_code)", "content=response.content", "headers=response.headers",
                "parsed=_parse_response(client=client, response=response)"):
         rep.check(kw in br.text, "R04.4", f"_build_response::{kw.split('=')[0]}", f"_build_response does not forward {kw.split('=')[0]}",
@@ -165,9 +356,20 @@ def run(rep: Report, ctx: Any) -> str:
             arms_txt[f.guards] = arms_txt.get(f.guards, "") + f.text
     bare = [f for f in frs if f.kind == "data" and "raise TypeError()" in f.text and "try:" not in arms_txt.get(f.guards, "")]
     rep.require(bare, "bare raise TypeError() in union construct")
-    # the namespace flag (the namespace variable is canonical: it reads as its own definition)
-    all_atoms = {a for f in frs for a in tplq.guard_atoms(f)}
-    unmod = next((a for a in sorted(all_atoms) if a.endswith(".contains_unmodified_properties")), "<ns>.contains_unmodified_properties")
+    # The "an unmodified member was seen" flag is found by its role, not by its spelling: the namespace attribute that the member loop
+    # sets to true exactly for members whose template has no construct macro (the alias of the member's imported template is part of
+    # the interface; the namespace, its attribute and the loop variable are template-local).
+    MEMBERS = "property.inner_properties"
+    aliases = {x.node.target for x in _tpl_stmts(cm.body, (nodes.Import,)) if x.loops == (MEMBERS,) and f"{MEMBERS}[*].template" in expr_text(x.node.template)}
+    rep.require(aliases, "import of the member's property template in the union construct loop")
+    has_construct = {f"{a}.construct" for a in aliases}
+    flags = set()
+    for x in _tpl_stmts(cm.body, (nodes.Assign,)):
+        if x.loops == (MEMBERS,) and isinstance(x.node.target, nodes.NSRef) and isinstance(x.node.node, nodes.Const) and x.node.node.value is True \
+                and any(tplq.implies(x, hc, False) for hc in has_construct):
+            flags.add(expr_text(x.node.target))
+    rep.require(len(flags) == 1, "the flag the union construct loop sets for members without a construct macro")
+    unmod = next(iter(flags))
     n_b = 0
     for f in bare:
         n_b += 1
@@ -186,8 +388,11 @@ def run(rep: Report, ctx: Any) -> str:
                   "alternative listed before a model makes from_dict / the response parser raise TypeError", where=f"{PKG}/templates/{ut.name}:{f.line}",
                   lhs=[g for g, _ in f.guards], rhs="implies loop.last and not ns.contains_unmodified_properties")
     rep.floor("bare_type_raises", n_b, 1)
-    casts2 = [f for f in frs if f.kind == "data" and "return cast(" in f.text]
-    rep.check(bool(casts2) and tplq.implies(casts2[0], unmod, True), "R04.6", "union_property.py.jinja::construct::fallback-cast",
+    casts2 = [f for f in frs if f.kind == "data" and not f.loops and "return cast(" in f.text]
+    # emitted exactly when an unmodified member exists: both directions by truth table over the guard's atoms
+    rep.check(bool(casts2) and tplq.implies(casts2[0], unmod, True) and
+              all(tplq.guard_holds(casts2[0], env) for env in tplq.assignments(tplq.guard_atoms(casts2[0])) if env[unmod]),
+              "R04.6", "union_property.py.jinja::construct::fallback-cast",
               "the fallback `return cast(...)` for unmodified members is missing or mis-guarded", where=f"{PKG}/templates/{ut.name}")
 
     # ---- reference convergence (shared with C20) ------------------------------------------------------------------------------
